@@ -46,8 +46,38 @@ fn random_case(r: &ConvRecipe) -> Option<FwdCase> {
     })
 }
 
+/// single calls and call sequences
+#[derive(Clone, Debug, serde::Serialize, serde::Deserialize)]
+pub enum Case6 {
+    F(FwdCase),
+    S(SeqCase),
+}
+impl CaseKind for Case6 {
+    const KIND: &'static str = "c06";
+    fn size(&self) -> usize {
+        match self {
+            Case6::F(c) => c.size(),
+            Case6::S(c) => c.size(),
+        }
+    }
+    fn sample(&self) -> Value {
+        match self {
+            Case6::F(c) => c.sample(),
+            Case6::S(c) => c.sample(),
+        }
+    }
+    fn run(&self) -> Outcome {
+        match self {
+            Case6::F(c) => c.run(),
+            Case6::S(c) => c.run(),
+        }
+    }
+}
+
 pub fn dispatch(kind: &str, v: &Value) -> Option<Outcome> {
     match kind {
+        "c06" => serde_json::from_value::<Case6>(v.clone()).ok().map(|c| c.run()),
+        "forward-op-sequence" => serde_json::from_value::<SeqCase>(v.clone()).ok().map(|c| c.run()),
         "forward-op" => serde_json::from_value::<FwdCase>(v.clone()).ok().map(|c| c.run()),
         _ => None,
     }
@@ -82,6 +112,29 @@ pub fn campaigns(ctx: &Ctx) -> Stats {
                 _ => (vec![1, 3, 2 * n], vec![1, 1, 3, 2], 1, 2),
             };
             Some(FwdCase { op: refmodel::ir::OpKind::Conv { sr, sc }, leaves: vec![LeafSpec { dims: image.clone(), vals: gen_vals(i, numel(&image), VKind::Int), tracked: false }, LeafSpec { dims: filters.clone(), vals: gen_vals(i + 1, numel(&filters), VKind::Int), tracked: false }], force_exact: None, second_is_view_of_first: None })
+        }));
+    }
+    // sequences of calls in one thread: the same filter / output layout with growing, shrinking and absent batches
+    {
+        let seqs: Vec<Vec<Vec<usize>>> = vec![vec![vec![], vec![4]], vec![vec![2], vec![5]], vec![vec![3], vec![1], vec![2, 2]], vec![vec![1], vec![], vec![3]]];
+        let layouts: [(usize, usize, usize, usize, usize, usize); 4] = [(1, 4, 4, 2, 2, 1), (2, 3, 5, 2, 1, 2), (1, 5, 5, 1, 3, 2), (2, 2, 6, 2, 2, 2)];
+        st.merge(ctx.run_indexed("call-sequences", (seqs.len() * layouts.len() * 2) as u64, None, |i| {
+            let s = &seqs[(i as usize) % seqs.len()];
+            let (depth, rows, cols, count, f, stride) = layouts[(i as usize / seqs.len()) % layouts.len()];
+            let second_layer = i as usize / seqs.len() / layouts.len() == 1;
+            let calls = s
+                .iter()
+                .enumerate()
+                .map(|(k, b)| {
+                    let mut image = b.clone();
+                    image.extend([depth, rows, cols]);
+                    // an unrelated layer with the same output layout in between
+                    let cnt = if second_layer && k == 1 { count } else { count };
+                    let filters = vec![cnt, depth, f, f.min(cols)];
+                    FwdCase { op: refmodel::ir::OpKind::Conv { sr: stride, sc: stride }, leaves: vec![LeafSpec { dims: image.clone(), vals: gen_vals(i + k as u64, numel(&image), VKind::Int), tracked: second_layer }, LeafSpec { dims: filters.clone(), vals: gen_vals(i + 7 + k as u64, numel(&filters), VKind::Int), tracked: false }], force_exact: None, second_is_view_of_first: None }
+                })
+                .collect();
+            Some(Case6::S(SeqCase { calls }))
         }));
     }
     let total = t.pick(15000u64, 300000);
